@@ -188,11 +188,26 @@ func c02(c *ctx) {
 			cr := wsutil.NewCipherReader(src, k)
 			var got []byte
 			buf := make([]byte, 1+rng.Intn(40))
-			for guard := 0; guard < 100000; guard++ {
-				m, err := cr.Read(buf)
+			switch i % 4 {
+			case 2: // a prefix through Read / ReadFull, the rest through io.Copy (which uses WriteTo if the reader has one)
+				pre := make([]byte, rng.Intn(ln+1)%7)
+				m, _ := io.ReadFull(cr, pre)
+				got = append(got, pre[:m]...)
+				var rest bytes.Buffer
+				io.Copy(&rest, cr)
+				got = append(got, rest.Bytes()...)
+			case 3: // io.ReadAll after one small Read
+				m, _ := cr.Read(buf[:1])
 				got = append(got, buf[:m]...)
-				if err != nil {
-					break
+				rest, _ := io.ReadAll(cr)
+				got = append(got, rest...)
+			default:
+				for guard := 0; guard < 100000; guard++ {
+					m, err := cr.Read(buf)
+					got = append(got, buf[:m]...)
+					if err != nil {
+						break
+					}
 				}
 			}
 			emit(map[string]interface{}{"k": "stream", "key": key, "who": "CipherReader", "p": vh.Ints(p), "key4": vh.Ints(k[:]),
